@@ -102,6 +102,14 @@ static void gen_trap (vf_rng *r, pixman_trapezoid_t *t, int w, int h, int hostil
         if (k == 7) { t->right.p1.x = e->p1.x + wd1 + 70000; t->right.p2.x = e->p2.x + wd2 + 70000; }
         else { t->left.p1.x = e->p1.x - wd1 - 70000; t->left.p2.x = e->p2.x - wd2 - 70000; }
     }
+    if (k == 9) {
+        /* a rectangle on whole pixels in both directions (what a caller drawing pixel-aligned boxes through the trapezoid interface sends) */
+        int x1 = (int)vf_range (r, -2, w), y1b = (int)vf_range (r, -2, h), bw = (int)vf_range (r, 1, w + 2), bh = (int)vf_range (r, 1, h + 2);
+        t->top = pixman_int_to_fixed (y1b); t->bottom = pixman_int_to_fixed (y1b + bh);
+        t->left.p1.x = t->left.p2.x = pixman_int_to_fixed (x1); t->right.p1.x = t->right.p2.x = pixman_int_to_fixed (x1 + bw);
+        pixman_fixed_t ext = vf_chance (r, 1, 2) ? 0 : (pixman_fixed_t)vf_range (r, 0, 3 * 65536);
+        t->left.p1.y = t->right.p1.y = t->top - ext; t->left.p2.y = t->right.p2.y = t->bottom + ext;
+    }
     if (t->left.p1.y == t->left.p2.y) t->left.p2.y++;
     if (t->right.p1.y == t->right.p2.y) t->right.p2.y++;
 }
